@@ -28,3 +28,124 @@ Theorem tucan_fixed_point :
     exists g : mol unit unit, ref_parse s = inr g /\ tucan canon g = Some s.
 Proof. exact (@RoundTrip2.tucan_fixed_point). Qed.
 Print Assumptions tucan_fixed_point.
+
+(* ------------------------------------------------------------------------------------------------ *)
+(* The quantifier closed over the readers (Proofs/EndToEnd2.v): wfg / simple / pos_attrs are theorems
+   about every graph the molfile entry point returns (EndToEnd.read_graph_props).                     *)
+Require Import Molfile.
+Require V2000 EndToEnd2 RefCanon.
+
+(* (a) for EVERY molfile text the entry point accepts (V2000 or V3000): if the pipeline returns a
+   string for the graph read, the reference reader accepts that string and returns the graph read up
+   to a renaming of the atoms, with the same number of atoms and bonds. *)
+Theorem C03_molfile_text_roundtrip :
+  forall canon, H1 canon ->
+  forall (s : text) (g : mol rpay Z) (str : text),
+    V2000.read_molfile s = ok g -> tucan canon g = Some str ->
+    exists (g' : mol unit unit) (f : N -> N),
+      ref_parse str = inr g' /\ SameMol f g g' /\
+      length (atoms g') = length (atoms g) /\ length (bonds g') = length (bonds g).
+Proof. exact (@EndToEnd2.molfile_text_roundtrip). Qed.
+Print Assumptions C03_molfile_text_roundtrip.
+
+(* (b) ... and (H2) the pipeline maps the graph read back to the identical string; g' and f are the
+   same witnesses as in (a). *)
+Theorem C03_molfile_text_fixed_point :
+  forall canon, H1 canon -> H2 canon ->
+  forall (s : text) (g : mol rpay Z) (str : text),
+    V2000.read_molfile s = ok g -> tucan canon g = Some str ->
+    exists (g' : mol unit unit) (f : N -> N),
+      ref_parse str = inr g' /\ SameMol f g g' /\
+      length (atoms g') = length (atoms g) /\ length (bonds g') = length (bonds g) /\
+      tucan canon g' = Some str.
+Proof. exact (@EndToEnd2.molfile_text_fixed_point). Qed.
+Print Assumptions C03_molfile_text_fixed_point.
+
+(* (c) with totality (C15) composed in: every accepted text whose graph has at least one atom HAS a
+   string, and (a), (b) hold for it.  `atoms g <> nil` is the only hypothesis about the graph: a file
+   announcing no atom is read into the empty graph, for which the pipeline returns nothing. *)
+Theorem C03_molfile_text_roundtrip_total :
+  forall canon, H1 canon -> H2 canon ->
+  forall (s : text) (g : mol rpay Z),
+    V2000.read_molfile s = ok g -> atoms g <> nil ->
+    exists (str : text) (g' : mol unit unit) (f : N -> N),
+      tucan canon g = Some str /\ ref_parse str = inr g' /\ SameMol f g g' /\
+      length (atoms g') = length (atoms g) /\ length (bonds g') = length (bonds g) /\
+      tucan canon g' = Some str.
+Proof. exact (@EndToEnd2.molfile_text_roundtrip_total). Qed.
+Print Assumptions C03_molfile_text_roundtrip_total.
+
+(* the same starting from any accepted TUCAN string with an atom *)
+Theorem C03_tucan_string_roundtrip_total :
+  forall canon, H1 canon -> H2 canon ->
+  forall (t0 : text) (g : mol unit unit),
+    ref_parse t0 = inr g -> atoms g <> nil ->
+    exists (str : text) (g' : mol unit unit) (f : N -> N),
+      tucan canon g = Some str /\ ref_parse str = inr g' /\ SameMol f g g' /\
+      length (atoms g') = length (atoms g) /\ length (bonds g') = length (bonds g) /\
+      tucan canon g' = Some str.
+Proof. exact (@EndToEnd2.tucan_string_roundtrip_total). Qed.
+Print Assumptions C03_tucan_string_roundtrip_total.
+
+From Coq Require Import Ascii String List.
+Require NonIdentity V3000Render V2000Render.
+(* Non-vacuity with the reference oracle (RefCanon.ref_canon satisfies H1 and H2): a V3000 file of
+   13C-formate (atoms numbered O H C O-), the whole chain by computation: the text is read, the string
+   is the literal below, the reference reader accepts it, and the string of the parsed graph is the
+   same literal.  (Views: (label, atomic number, mass, radical) per atom; bond endpoints.) *)
+Theorem C03_example_text : EndToEnd2.Example.formate_text = join_with (ascii_of_N 10 :: nil)
+  (t "formate" :: t "  by hand" :: t "" :: t "  0  0  0     0  0            999 V3000" ::
+   t "M  V30 BEGIN CTAB" :: t "M  V30 COUNTS 4 3 0 0 0" ::
+   t "M  V30 BEGIN ATOM" ::
+   t "M  V30 1 O 1.2 0.7 0 0" ::
+   t "M  V30 2 H 0.0 -1.1 0 0" ::
+   t "M  V30 3 C 0.0 0.0 0 0 MASS=13" ::
+   t "M  V30 4 O -1.2 0.7 0 0 CHG=-1" ::
+   t "M  V30 END ATOM" ::
+   t "M  V30 BEGIN BOND" ::
+   t "M  V30 1 2 3 1" :: t "M  V30 2 1 4 3" :: t "M  V30 3 1 2 3" ::
+   t "M  V30 END BOND" :: t "M  V30 END CTAB" :: t "M  END" :: nil).
+Proof. reflexivity. Qed.
+Print Assumptions C03_example_text.
+
+Theorem C03_example_chain_computed :
+  EndToEnd2.Example.chain EndToEnd2.Example.formate_text =
+  Some (((0, 8, None, None) :: (1, 1, None, None) :: (2, 6, Some 13%Z, None) :: (3, 8, None, None) :: nil,
+         (2, 0) :: (3, 2) :: (1, 2) :: nil)%N,
+        t "CHO2/(1-2)(2-3)(2-4)/(2:mass=13)",
+        ((0, 1, None, None) :: (1, 6, Some 13%Z, None) :: (2, 8, None, None) :: (3, 8, None, None) :: nil,
+         (0, 1) :: (1, 2) :: (1, 3) :: nil)%N,
+        t "CHO2/(1-2)(2-3)(2-4)/(2:mass=13)").
+Proof. exact EndToEnd2.Example.formate_chain_computed. Qed.
+Print Assumptions C03_example_chain_computed.
+
+Theorem C03_example_chain :
+  V2000.read_molfile EndToEnd2.Example.formate_text = ok EndToEnd2.Example.formate_graph /\
+  tucan RefCanon.ref_canon EndToEnd2.Example.formate_graph = Some (t "CHO2/(1-2)(2-3)(2-4)/(2:mass=13)") /\
+  ref_parse (t "CHO2/(1-2)(2-3)(2-4)/(2:mass=13)") = inr EndToEnd2.Example.formate_parsed /\
+  tucan RefCanon.ref_canon EndToEnd2.Example.formate_parsed = Some (t "CHO2/(1-2)(2-3)(2-4)/(2:mass=13)").
+Proof. exact EndToEnd2.Example.formate_chain. Qed.
+Print Assumptions C03_example_chain.
+
+(* theorem (c) instantiated on the file: its witnesses are the computed ones *)
+Theorem C03_example_roundtrip : exists f,
+  tucan RefCanon.ref_canon EndToEnd2.Example.formate_graph = Some (t "CHO2/(1-2)(2-3)(2-4)/(2:mass=13)") /\
+  ref_parse (t "CHO2/(1-2)(2-3)(2-4)/(2:mass=13)") = inr EndToEnd2.Example.formate_parsed /\
+  SameMol f EndToEnd2.Example.formate_graph EndToEnd2.Example.formate_parsed /\
+  length (atoms EndToEnd2.Example.formate_parsed) = 4 /\ length (bonds EndToEnd2.Example.formate_parsed) = 3 /\
+  tucan RefCanon.ref_canon EndToEnd2.Example.formate_parsed = Some (t "CHO2/(1-2)(2-3)(2-4)/(2:mass=13)").
+Proof. exact EndToEnd2.Example.formate_roundtrip. Qed.
+Print Assumptions C03_example_roundtrip.
+
+(* the same chain on the formate files of C06 (NonIdentity.Example): first and second string *)
+Theorem C03_example_files_chain :
+  option_map (fun r => (snd (fst (fst r)), snd r))
+    (EndToEnd2.Example.chain (V3000Render.file_text NonIdentity.Example.crlf 0
+       (V3000Render.render3000 NonIdentity.Example.formA NonIdentity.Example.chA)))
+    = Some (t "CHO2/(1-2)(2-3)(2-4)/(2:mass=13)", t "CHO2/(1-2)(2-3)(2-4)/(2:mass=13)") /\
+  option_map (fun r => (snd (fst (fst r)), snd r))
+    (EndToEnd2.Example.chain (V3000Render.file_text NonIdentity.Example.mixed 0
+       (V2000Render.render2000 NonIdentity.Example.form2 NonIdentity.Example.ch2)))
+    = Some (t "CHO2/(1-2)(2-3)(2-4)/(2:mass=13)", t "CHO2/(1-2)(2-3)(2-4)/(2:mass=13)").
+Proof. exact EndToEnd2.Example.formate_files_chain_computed. Qed.
+Print Assumptions C03_example_files_chain.
